@@ -183,13 +183,22 @@ class StreamMon(Mon):
         ]
         self.w = Signal()
         self.comb += self.w.eq(out_cnt >= 3)
+        # wire format of the stream wrapper: word i travels in bits [10i, 10i+10) and each word is bit-reversed for LSB-first serialisation, i.e. the
+        # bus equals the outputs of a multi-word Encoder(nwords, lsb_first=True) that advances with the wrapper's clock enable (that encoder's own
+        # serial-stream properties - run length, commas, disparity chaining across words - are the code_n*_lsb obligations)
+        self.submodules.ref = ref = c8.Encoder(nwords, True)
+        self.comb += ref.ce.eq(enc.pipe_ce)
+        for i in range(nwords):
+            self.comb += [ref.d[i].eq(sink.d[8 * i:8 * i + 8]), ref.k[i].eq(sink.k[i])]
+        self.bad_wire = Signal()
+        self.comb += self.bad_wire.eq(enc.source.data != Cat(*ref.output))
 
 
 def build_stream(nwords, K):
     m = StreamMon(nwords)
     free = [m.sink.valid, m.sink.d, m.sink.k, m.sink.first, m.sink.last, m.source.ready, m.mid_stall]
     return H("stream_n%d" % nwords, m, free, rigid=[m.N], assume=[m.legal, m.nooverflow],
-             bad=dict(spurious=m.bad_spurious, roundtrip=m.bad_data), witness=dict(three_tokens=m.w), K=K,
+             bad=dict(spurious=m.bad_spurious, roundtrip=m.bad_data, wire_format_is_word_by_word_lsb_first=m.bad_wire), witness=dict(three_tokens=m.w), K=K,
              funcs=FUNCS, cfg=dict(nwords=nwords), show=[m.sink.valid, m.sink.ready, m.sink.d, m.sink.k, m.source.valid, m.source.ready, m.source.d, m.source.k])
 
 
@@ -204,7 +213,7 @@ def jobs(tier):
         for n in (1, 2):
             for lsb in (False, True):
                 js.append(Job("code_n%d_%s" % (n, "lsb" if lsb else "msb"), build_code, dict(nwords=n, lsb_first=lsb, K=8), cost=n * 10))
-        js += [Job("stream_n1", build_stream, dict(nwords=1, K=12), cost=10)]
+        js += [Job("stream_n1", build_stream, dict(nwords=1, K=12), cost=10), Job("stream_n2", build_stream, dict(nwords=2, K=9), cost=30)]
     js += [Job("invalid_%s" % ("lsb" if l else "msb"), build_invalid, dict(lsb_first=l)) for l in (False, True)]
     return js
 
